@@ -8,7 +8,7 @@ PROP = {
         "Mps.C09.own_message_refused", "Mps.C09.unknown_sender_refused", "Mps.C09.beyond_final_round_refused",
         "Mps.C09.stale_round_refused", "Mps.C09.refused_is_noop", "Mps.C09.cross_session_noop",
     ],
-    "generated": ["Mps.HandlerSrc.gen_handler_source_0", "Mps.HandlerSrc.gen_handler_source_1", "Mps.HandlerSrc.gen_handler_source_2", "Mps.HandlerSrc.gen_handler_source_3", "Mps.HandlerSrc.gen_handler_source_4", "Mps.HandlerSrc.gen_handler_source_5", 
+    "generated": ["Mps.Src.SrcCmpKeygen.gen_source", "Mps.Src.SrcCmpSign.gen_source", "Mps.Src.SrcCmpPresign.gen_source", "Mps.Src.SrcFrostKeygen.gen_source", "Mps.Src.SrcFrostSign.gen_source", "Mps.Src.SrcDoernerKeygen.gen_source", "Mps.Src.SrcDoernerSign.gen_source", "Mps.HandlerSrc.gen_handler_source_0", "Mps.HandlerSrc.gen_handler_source_1", "Mps.HandlerSrc.gen_handler_source_2", "Mps.HandlerSrc.gen_handler_source_3", "Mps.HandlerSrc.gen_handler_source_4", "Mps.HandlerSrc.gen_handler_source_5", 
         "Mps.C09.gen_session_layout", "Mps.C09.gen_hash_for_id", "Mps.C09.gen_can_accept", "Mps.C09.gen_protocol_ids",
         "Mps.C09.gen_protocol_ids_nodup", "Mps.C09.gen_cmp_aux",
     ],
